@@ -67,7 +67,7 @@ pub trait Host {
     /// Called between two program-advancing calls while the program is
     /// running or awaiting input. Return true after having broken in (the
     /// runner then resumes with CONT).
-    fn boundary(&mut self, _sess: &mut Sess, _turn: u64, _state: St) -> Result<bool, Crash> {
+    fn boundary(&mut self, _sess: &mut Sess, _turn: u64, _state: St, _events_so_far: usize) -> Result<bool, Crash> {
         Ok(false)
     }
     /// Called when the program has executed STOP, before CONT.
@@ -116,7 +116,7 @@ pub fn drive(sess: &mut Sess, start_cmd: &str, replies: &[String], budget: u64, 
                     t.end = End::Budget;
                     return Ok(t);
                 }
-                if host.boundary(sess, t.calls, st)? {
+                if host.boundary(sess, t.calls, st, t.events.len())? {
                     r = sess.line("CONT")?;
                     t.calls += 1;
                     continue;
